@@ -5,6 +5,7 @@ import Zed.Model.SvcQueryio
   `(C19 rt <fmt> <ctrl 0|1> <err: - | E<msg>> <event>…)` with events `(b L<label> n…)`,
   `(e L<label>)`, `t`  →  `(<frame>…) (<(L<label> n)>…) <- | E<msg>>`
   where frames are `(v n…)`, `(cs L<label>)`, `(ce L<label>)`, `s`, `(err E<msg>)`.
+  `(C19 accept M<mediatype>…)` → the negotiated response format (default zson) or `none`.
   `(C19 mime <format>)` → the media type announced for the format and the format it parses
   back to.  Labels and messages are alphanumeric atoms behind a one-letter prefix.
 -/
@@ -44,6 +45,10 @@ def handle : List Sexp → String
         toString (Sexp.list (vals.map fun (l, n) => .list [.atom ("L" ++ l), .atom (toString n)])) ++ " " ++
         (match de with | none => "-" | some m => "E" ++ m)
     | _, _, _ => "bad-op"
+  | .atom "accept" :: ms =>
+    match ms.mapM (fun | .atom m => unprefix 'M' m | _ => none) with
+    | some l => (negotiate "zson" l).getD "none"
+    | none => "bad-op"
   | [.atom "mime", .atom f] =>
     match formatToMediaType f with
     | none => "none"
